@@ -40,8 +40,23 @@ func access(v reflect.Value) reflect.Value {
 	return reflect.NewAt(v.Type(), unsafe.Pointer(v.UnsafeAddr())).Elem()
 }
 
+// Opaque lists types (by their reflect String(), e.g. "regexp.Regexp") that are
+// rendered through fmt %v (pointers to them too) instead of being walked.
+var Opaque = map[string]bool{"regexp.Regexp": true, "time.Location": true, "context.Context": true}
+
 func (d *dumper) walk(v reflect.Value, depth int) {
-	if depth > 64 {
+	if v.IsValid() && Opaque[v.Type().String()] {
+		if v.Kind() != reflect.Interface && v.CanAddr() {
+			a := access(v)
+			if a.CanAddr() && a.Addr().CanInterface() {
+				fmt.Fprintf(&d.b, "opaque(%v)", a.Addr().Interface())
+				return
+			}
+		}
+		d.b.WriteString("opaque")
+		return
+	}
+	if depth > 200 {
 		d.b.WriteString("<deep>")
 		return
 	}
@@ -134,20 +149,30 @@ func (d *dumper) walk(v reflect.Value, depth int) {
 			d.b.WriteString("nilmap")
 			return
 		}
-		type kv struct{ k, v string }
+		// keys are rendered first (with a scratch id table, so that visiting them in Go's random
+		// map order cannot influence pointer numbering), sorted, and only then are the values
+		// walked, in sorted key order
+		type kv struct {
+			k string
+			v reflect.Value
+		}
 		var es []kv
 		it := v.MapRange()
 		for it.Next() {
-			kd := &dumper{ids: d.ids, lo: d.lo, hi: d.hi}
+			scratch := map[unsafe.Pointer]int{}
+			for p, id := range d.ids {
+				scratch[p] = id
+			}
+			kd := &dumper{ids: scratch, lo: d.lo, hi: d.hi}
 			kd.walk(it.Key(), depth+1)
-			vd := &dumper{ids: d.ids, lo: d.lo, hi: d.hi}
-			vd.walk(it.Value(), depth+1)
-			es = append(es, kv{kd.b.String(), vd.b.String()})
+			es = append(es, kv{kd.b.String(), it.Value()})
 		}
 		sort.Slice(es, func(i, j int) bool { return es[i].k < es[j].k })
 		d.b.WriteString("map{")
 		for _, e := range es {
-			d.b.WriteString(e.k + "=>" + e.v + ",")
+			d.b.WriteString(e.k + "=>")
+			d.walk(e.v, depth+1)
+			d.b.WriteString(",")
 		}
 		d.b.WriteString("}")
 	case reflect.Chan, reflect.Func, reflect.UnsafePointer:
